@@ -126,6 +126,18 @@ func runC27(c *core.Ctx) error {
 			if p.NegZ {
 				key = fmt.Sprintf("migration/%s/%s/%s/negative-zero-float", r.name, r.wl, p.Tn)
 			}
+			if p.NegZ {
+				// -0.0 in a required float field is dropped by every generated writer (known finding of C03/C05);
+				// C27 asks for "the same as the original schema's code", so that is what is compared
+				ro, err := orig.script(p.Tn, false, map[string]any{"op": "read2", "in": p.TL2})
+				if err == nil && ro.Steps[0].Dump != nil && s.Dump != nil && s.Err == "" && s.Panic == "" {
+					if !eqInts(ro.Steps[0].Dump.TL2, s.Dump.TL2) || ro.Steps[0].Dump.JSON != s.Dump.JSON {
+						c.Violate(fmt.Sprintf("migration/%s/%s/%s/%s", r.name, r.wl, p.Tn, hexs(p.TL2)), fmt.Sprintf("migrated type %s: TL2 %s is re-written as %s / %s, by the original schema's code as %s / %s",
+							p.Tn, hexs(p.TL2), hexs(s.Dump.TL2), s.Dump.JSON, hexs(ro.Steps[0].Dump.TL2), ro.Steps[0].Dump.JSON), p)
+					}
+					return
+				}
+			}
 			switch {
 			case s.Panic != "":
 				c.Violate(key, "migrated code panics: "+s.Panic, p)
